@@ -105,18 +105,24 @@ def gen_history(rnd, seed):
                     ops.append(['ignores', again])
         else:
             ops.append(['reset'])
+        if rnd.random() < 0.12:
+            # key lists given as one-shot iterables, then the same notebooks diffed several times
+            ops.append(['ignores_iter', rnd.choice([{'/cells/*/metadata': ['collapsed', 'scrolled']}, {'/cells/*/metadata': ['tags']}, {'/metadata': ['kernelspec']}])])
+            j = rnd.randrange(12)
+            ops += [['diffk', seed, j], ['diff', seed, rnd.randrange(12), 'l'], ['diffk', seed, j]]
     ops.append(['diffk', seed, rnd.randrange(12)])
     ops.append(['diff', seed, rnd.randrange(12), 'l'])
     return ops
 
 
-def in_force(ops, i):
-    "the ignore-configuration operations whose effect is in force before operation i (from the last reset / last full targets call on)"
+def in_force(ops, i, got=None):
+    """the ignore-configuration operations whose effect is in force before operation i (from the last reset / last full targets call on);
+    a configuration call that the code under check refused (it raised: got[j] is not 'cfg') is not in force"""
     start = 0
     for j in range(i):
         if ops[j][0] in ('reset', 'targets'):
             start = j
-    eff = [o for o in ops[start:i] if o[0] in ('reset', 'targets', 'ignores')]
+    eff = [o for j, o in enumerate(ops[start:i], start) if o[0] in ('reset', 'targets', 'ignores', 'ignores_iter') and (got is None or got[j] == 'cfg')]
     # set_notebook_diff_ignores configures path by path: a later call replaces what an earlier one said about the same path and leaves
     # the other paths alone.  The options in force are therefore ONE mapping (later entries win), installed once in the fresh process.
     out, merged = [], None
@@ -144,7 +150,7 @@ def _history_job(job):
         if op[0] not in ('diff', 'diffk', 'merge'):
             continue
         n += 1
-        fresh = worker(in_force(ops, i) + [op])[-1]
+        fresh = worker(in_force(ops, i, got) + [op])[-1]
         if fresh != got[i]:
             fails.append(('history', 'call #%d %r answered %s after history %r but %s in a fresh interpreter with the same ignore options'
                           % (i, op, got[i], ops[:i], fresh), {'ops': ops, 'index': i}))
